@@ -32,8 +32,10 @@ fn decode<T: Readable + Writable>(bytes: &[u8], bit_len: usize) -> Result<(Strin
     match r.read::<T>() {
         Ok(v) => {
             let rem = r.bits_remaining();
+            // the real cursor (the remaining-bit count saturates and would hide an over-read)
+            let pos = r.into_bits().pos();
             let dump = to_val(&v).map(|x| x.to_sexpr()).unwrap_or_else(|e| format!("(dump-error {e})"));
-            Ok((dump, bit_len - rem, rem))
+            Ok((dump, pos, rem))
         }
         Err(e) => {
             // the accessor must stay callable after a failed read (C04)
@@ -55,6 +57,13 @@ impl<'a> Visitor for Op<'a> {
         Some(match self.op {
             // descriptor as the codec sees it
             "desc" => match gen::<T>(1, GenMode::Valid, 3) {
+                Ok((_, ty, _)) => format!("ok {ty}"),
+                Err(e) => format!("err desc:{}", e.replace(' ', "_")),
+            },
+            // `desccheck <name> <Ty>`: the descriptor recomputed from the compiled type (the generated
+            // constants) — the driver answers the same text only if the constants agree with the
+            // component list
+            "desccheck" => match gen::<T>(1, GenMode::Valid, 3) {
                 Ok((_, ty, _)) => format!("ok {ty}"),
                 Err(e) => format!("err desc:{}", e.replace(' ', "_")),
             },
